@@ -13,3 +13,4 @@ INVARIANT RotZIsRot2
 INVARIANT RotationsAreRotations
 INVARIANT AboutFixesCentre
 INVARIANT TcCorners
+INVARIANT HProdInvertible
